@@ -51,6 +51,7 @@ IMPORTS = {
         ("C09", ["C09.D8"], "a merged tuple position is constrained only by what the subschemas say about that position: the scalar chosen for it admits every value the conjunction admits"),
         ("C09", ["C09.D6", "C09.D7"], "the bounds of a conjunction are each side's own bounds combined member by member in the direction of an intersection: the scalar is chosen for the range the allOf really admits"),
         ("C06", ["C06.W3", "C06.D8"], "the numeric default that is range-checked is the one the schema states (annotations are not rewritten before conversion)"),
+        ("C14", ["C14.W5"], "every occurrence of a numeric schema goes through its own conversion (and default range check): nothing converted earlier is remembered under a key that ignores the default"),
     ],
     "C14": [
         ("C16", ["C16.W2"], "replacement and merging read the definitions index: it is only ever added to (a replaced definition's schema must stay available for structural merging)"),
